@@ -17,11 +17,23 @@
    pairwise distinct IF the stream's blocks are.  NOT MODELLED, and not provable here: that the operating
    system's generator (getrandom) returns unpredictable, non-repeating bytes; that distinct ephemeral private
    keys give distinct public keys and distinct payload keys give distinct file keys.  That the Rust draws in
-   this order and number is tied to the code by the correspondence runs (random-stream hook), not by a theorem. *)
+   this order and number is tied to the code by the correspondence runs (random-stream hook), not by a theorem.
+
+   Part 3 (added; proofs in Proofs/RandRoles.v) links [op_roles] to the model functions that consume the
+   randomness.  Model/RandRun.v runs Files.key_encrypt and the four drawing commands of Model/Cli.v on a random
+   SOURCE (the stream of Rand.v, a counter, a journal), drawing where the program draws.  Theorems: each such run
+   returns exactly what the explicit-argument function returns on the stream blocks at the positions drawn
+   (erasure); the journal of ANY run grows by the first k draws Rand.draw_roles plans for [op_roles] of the
+   operation — a run that fails early draws a prefix, possibly strict —, and by all of them when the run reaches
+   the end; a history of commands on one source consumes consecutive blocks and, if every command succeeds, its
+   journal IS [all_draws (run_history ..)], the object of Part 2.  So Part 2 no longer rests on a separate
+   reading of the draw order of the MODEL; that the model's draw points are the Rust's is still the
+   correspondence check's business. *)
 From Kestrel Require Import Bytes Outcome IO IOFacts Prims.
 From Kestrel.gen Require Import Extracted.
 From Kestrel.Model Require Import AeadWrap Chunks Noise NoiseSpec Files EventPreds FilesSpec ChunksSpec CombineDefs Rand.
-From Kestrel.Proofs Require Import ChunksEnc PrimFacts CombineFiles CombineNonce CombineRand.
+From Kestrel.Model Require Import KeyringText Cli RandRun.
+From Kestrel.Proofs Require Import ChunksEnc PrimFacts CombineFiles CombineNonce CombineRand RandRoles.
 Local Open Scope N_scope.
 
 (* Part 1.  EVERY io state (any plaintext, any read/write/flush script, faults): the new events tr of an encrypt_chunks run contain m seals, with counters exactly 0, 1, ..., m-1 in this order, all under [key], each with associated data aad ++ flag ++ length of its plaintext, and the sealed plaintexts are the first m read results: chunk i is sealed exactly once, under counter i *)
@@ -195,3 +207,153 @@ Theorem C07_drawn_values_distinct :
 Proof. exact (drawn_values_distinct). Qed.
 Print Assumptions C07_drawn_values_distinct.
 
+
+(* Part 3.  What [drew g g' roles k] says, unfolded: the journal grew by k records whose roles are the first k of [roles], whose block indices are g_next, g_next+1, ..., whose values are the stream's blocks; the counter advanced by k; the stream is unchanged *)
+Theorem C07_drew_meaning :
+  forall (g g' : rsrc) (roles : list role) (k : nat),
+  drew g g' roles k ->
+  exists ds : list draw,
+    g_log g' = g_log g ++ ds /\
+    length ds = k /\
+    map d_index ds = seq (g_next g) k /\
+    map d_role ds = firstn k roles /\
+    Forall (fun d : draw => d_value d = g_stream g (d_index d)) ds /\
+    g_next g' = (g_next g + k)%nat /\ g_stream g' = g_stream g.
+Proof. exact (drew_meaning). Qed.
+Print Assumptions C07_drew_meaning.
+
+(* LIBRARY, any combination of injected values, every primitive record, every io state: key_encrypt run on a random source (i) returns exactly Files.key_encrypt on the next stream block as payload key and the block after it (the same block when the payload key is injected) as ephemeral key, (ii) draws a PREFIX of the roles the injected values leave to be drawn — payload key first, then ephemeral key unless BOTH halves of the pair are injected —, (iii) draws all of them whenever the outcome is a value (Ok or Err) *)
+Theorem C07_key_encrypt_draws_general :
+  forall (P : prims) (g : rsrc) (s spk r : bytes) (e epk pk : option bytes) (s0 : io)
+    (res : outcome eerr unit * io) (g' : rsrc),
+  key_encrypt_r P g s spk r e epk pk s0 = (res, g') ->
+  res = key_encrypt P (g_stream g (g_next g)) (g_stream g (g_next g + npk pk)%nat) s spk r e epk pk s0 /\
+  (exists k : nat,
+     drew g g' (key_enc_roles pk e epk) k /\ (normal (fst res) -> k = length (key_enc_roles pk e epk))).
+Proof. exact (key_encrypt_r_spec). Qed.
+Print Assumptions C07_key_encrypt_draws_general.
+
+(* ... with nothing injected (the operation of Rand.v): the roles are [op_roles OpKeyEncrypt] *)
+Theorem C07_key_encrypt_draws :
+  forall (P : prims) (g : rsrc) (s spk r : bytes) (s0 : io) (res : outcome eerr unit * io) (g' : rsrc),
+  key_encrypt_r P g s spk r None None None s0 = (res, g') ->
+  res = key_encrypt P (g_stream g (g_next g)) (g_stream g (S (g_next g))) s spk r None None None s0 /\
+  (exists k : nat,
+     drew g g' (op_roles OpKeyEncrypt) k /\ (normal (fst res) -> k = length (op_roles OpKeyEncrypt))).
+Proof. exact (key_encrypt_draws). Qed.
+Print Assumptions C07_key_encrypt_draws.
+
+(* COMMAND encrypt: erasure to Cli.cmd_encrypt; a prefix of [op_roles OpKeyEncrypt]; all of it when the command succeeds or fails inside the library with an EncryptError (a command that fails before the library call draws nothing) *)
+Theorem C07_cmd_encrypt_draws :
+  forall (P : prims) (pk_ok sk_ok : text -> bool) (unlock : text -> bytes -> outcome kerr bytes)
+    (decode_pk : text -> outcome kerr bytes) (utf8_decode : bytes -> option text) (g : rsrc)
+    (w : world) (o : enc_opts) (res : cmd_result) (g' : rsrc),
+  cmd_encrypt_r P pk_ok sk_ok unlock decode_pk utf8_decode g w o = (res, g') ->
+  res =
+  cmd_encrypt P pk_ok sk_ok unlock decode_pk utf8_decode w o (g_stream g (g_next g)) (g_stream g (S (g_next g))) /\
+  (exists k : nat,
+     drew g g' (op_roles OpKeyEncrypt) k /\
+     (is_success (status res) = true \/ (exists e : eerr, status res = SEncryptFailed e) ->
+      k = length (op_roles OpKeyEncrypt))).
+Proof. exact (cmd_encrypt_draws). Qed.
+Print Assumptions C07_cmd_encrypt_draws.
+
+(* COMMAND password encrypt: the file salt is drawn after the input/output checks and the password; the library call is Files.pass_encrypt on that salt (inside Cli.cmd_pass_encrypt) *)
+Theorem C07_cmd_pass_encrypt_draws :
+  forall (P : prims) (g : rsrc) (w : world) (o : pw_opts) (res : cmd_result) (g' : rsrc),
+  cmd_pass_encrypt_r P g w o = (res, g') ->
+  res = cmd_pass_encrypt P w o (g_stream g (g_next g)) /\
+  (exists k : nat,
+     drew g g' (op_roles OpPassEncryptCli) k /\
+     (is_success (status res) = true \/ (exists e : eerr, status res = SEncryptFailed e) ->
+      k = length (op_roles OpPassEncryptCli))).
+Proof. exact (cmd_pass_encrypt_draws). Qed.
+Print Assumptions C07_cmd_pass_encrypt_draws.
+
+(* COMMAND key generate: private key, then (only if to_public succeeded) the lock salt *)
+Theorem C07_cmd_gen_key_draws :
+  forall (P : prims) (lock : bytes -> bytes -> bytes -> text) (encode_pk : bytes -> text)
+    (utf8_decode : bytes -> option text) (utf8_encode : text -> bytes) (g : rsrc) (w : world)
+    (o : gen_opts) (res : cmd_result) (g' : rsrc),
+  cmd_gen_key_r P lock encode_pk utf8_decode utf8_encode g w o = (res, g') ->
+  res =
+  cmd_gen_key P lock encode_pk utf8_decode utf8_encode w o (g_stream g (g_next g)) (g_stream g (S (g_next g))) /\
+  (exists k : nat,
+     drew g g' (op_roles OpKeyGenerate) k /\
+     (is_success (status res) = true -> k = length (op_roles OpKeyGenerate))).
+Proof. exact (cmd_gen_key_draws). Qed.
+Print Assumptions C07_cmd_gen_key_draws.
+
+(* COMMAND key change-pass: the new lock salt, drawn after the old key was unlocked *)
+Theorem C07_cmd_change_pass_draws :
+  forall (unlock : text -> bytes -> outcome kerr bytes) (lock : bytes -> bytes -> bytes -> text)
+    (sk_string_ok : text -> bool) (utf8_encode : text -> bytes) (g : rsrc) (w : world)
+    (key : text) (ep : bool) (res : cmd_result) (g' : rsrc),
+  cmd_change_pass_r unlock lock sk_string_ok utf8_encode g w key ep = (res, g') ->
+  res = cmd_change_pass unlock lock sk_string_ok utf8_encode w key ep (g_stream g (g_next g)) /\
+  (exists k : nat,
+     drew g g' (op_roles OpChangePass) k /\
+     (is_success (status res) = true -> k = length (op_roles OpChangePass))).
+Proof. exact (cmd_change_pass_draws). Qed.
+Print Assumptions C07_cmd_change_pass_draws.
+
+(* the four commands in one statement: [rcmd_op c] is the operation of Rand.v the command stands for *)
+Theorem C07_command_draws :
+  forall (P : prims) (pk_ok sk_ok : text -> bool) (unlock : text -> bytes -> outcome kerr bytes)
+    (lock : bytes -> bytes -> bytes -> text) (decode_pk : text -> outcome kerr bytes)
+    (encode_pk : bytes -> text) (sk_string_ok : text -> bool) (utf8_decode : bytes -> option text)
+    (utf8_encode : text -> bytes) (g : rsrc) (c : rcmd) (res : cmd_result) (g' : rsrc),
+  run_rcmd P pk_ok sk_ok unlock lock decode_pk encode_pk sk_string_ok utf8_decode utf8_encode g c = (res, g') ->
+  res =
+  run_rcmd_explicit P pk_ok sk_ok unlock lock decode_pk encode_pk sk_string_ok utf8_decode utf8_encode c
+    (g_stream g (g_next g)) (g_stream g (S (g_next g))) /\
+  (exists k : nat,
+     drew g g' (op_roles (rcmd_op c)) k /\ (is_success (status res) = true -> k = length (op_roles (rcmd_op c)))).
+Proof. exact (run_rcmd_draws). Qed.
+Print Assumptions C07_command_draws.
+
+(* HISTORY, any outcome of any command: the commands of a history on one source consume consecutive blocks (no gap, no block twice), every journalled value is the stream block at its index *)
+Theorem C07_history_draws_consecutive :
+  forall (P : prims) (pk_ok sk_ok : text -> bool) (unlock : text -> bytes -> outcome kerr bytes)
+    (lock : bytes -> bytes -> bytes -> text) (decode_pk : text -> outcome kerr bytes)
+    (encode_pk : bytes -> text) (sk_string_ok : text -> bool) (utf8_decode : bytes -> option text)
+    (utf8_encode : text -> bytes) (cs : list rcmd) (g : rsrc) (results : list cmd_result)
+    (g' : rsrc),
+  run_rcmds P pk_ok sk_ok unlock lock decode_pk encode_pk sk_string_ok utf8_decode utf8_encode g cs =
+  (results, g') ->
+  length results = length cs /\
+  (exists ds : list draw,
+     g_log g' = g_log g ++ ds /\
+     map d_index ds = seq (g_next g) (length ds) /\
+     g_next g' = (g_next g + length ds)%nat /\
+     g_stream g' = g_stream g /\ Forall (fun d : draw => d_value d = g_stream g (d_index d)) ds).
+Proof. exact (run_rcmds_consecutive). Qed.
+Print Assumptions C07_history_draws_consecutive.
+
+(* HISTORY in which every command succeeds: the journal is exactly the draws Rand.run_history assigns to the operations — the object of C07_draws_consecutive .. C07_drawn_values_distinct above — and the source ends at run_history's final counter *)
+Theorem C07_history_draws_are_run_history :
+  forall (P : prims) (pk_ok sk_ok : text -> bool) (unlock : text -> bytes -> outcome kerr bytes)
+    (lock : bytes -> bytes -> bytes -> text) (decode_pk : text -> outcome kerr bytes)
+    (encode_pk : bytes -> text) (sk_string_ok : text -> bool) (utf8_decode : bytes -> option text)
+    (utf8_encode : text -> bytes) (cs : list rcmd) (g : rsrc) (results : list cmd_result)
+    (g' : rsrc),
+  run_rcmds P pk_ok sk_ok unlock lock decode_pk encode_pk sk_string_ok utf8_decode utf8_encode g cs =
+  (results, g') ->
+  Forall (fun r : cmd_result => is_success (status r) = true) results ->
+  g_log g' = g_log g ++ all_draws (fst (run_history (g_stream g) (g_next g) (map rcmd_op cs))) /\
+  g_next g' = snd (run_history (g_stream g) (g_next g) (map rcmd_op cs)) /\ g_stream g' = g_stream g.
+Proof. exact (run_rcmds_complete). Qed.
+Print Assumptions C07_history_draws_are_run_history.
+
+(* non-vacuity (toy primitives, by computation): a complete run, two strict-prefix runs (a panic before token e; a stream block of 31 bytes), a half-injected ephemeral pair (still drawn), everything injected (nothing drawn) *)
+Theorem C07_draw_prefix_examples :
+  toy_run 32 false None None None = (true, [RPayloadKey; REphemeralKey], 7%nat) /\
+  toy_run 0 false None None None = (false, [RPayloadKey], 6%nat) /\
+  toy_run 32 true None None None = (false, [RPayloadKey], 6%nat) /\
+  toy_run 32 false (Some (zeros 32)) None (Some (zeros 32)) = (true, [REphemeralKey], 6%nat) /\
+  toy_run 32 false (Some (zeros 32)) (Some (zeros 32)) (Some (zeros 32)) = (true, [], 5%nat).
+Proof.
+  exact (conj toy_complete (conj toy_prefix_early_panic (conj toy_prefix_short_block
+          (conj toy_half_injected toy_all_injected)))).
+Qed.
+Print Assumptions C07_draw_prefix_examples.
